@@ -67,6 +67,42 @@ def same(a, b):
     return True
 
 
+def close(a, b, rtol=2e-3):
+    """like same() but values may differ by rounding (relative to the largest magnitude of the object): for comparisons between runs whose
+    floating-point evaluation order may legitimately differ (another memory order, another thread count)"""
+    if a[0] != b[0]:
+        return False
+    if a[0] == 'nd':
+        if a[1] != b[1]:
+            return False
+        x, y = a[3], b[3]
+        if x.dtype.kind in 'fc' and x.size:
+            fx, fy = np.nan_to_num(x, nan=12345.678, posinf=1e300, neginf=-1e300), np.nan_to_num(y, nan=12345.678, posinf=1e300, neginf=-1e300)
+            m = float(np.max(np.abs(fx)))
+            return bool(np.max(np.abs(fx - fy)) <= rtol * max(m, 1e-30))
+        return bool(np.array_equal(x, y))
+    if a[0] == 't':
+        if a[1] != b[1]:
+            return False
+        x, y = a[3], b[3]
+        if (x.is_floating_point() or x.is_complex()) and x.numel():
+            fx = torch.nan_to_num(torch.view_as_real(x) if x.is_complex() else x, nan=12345.678).double()
+            fy = torch.nan_to_num(torch.view_as_real(y) if y.is_complex() else y, nan=12345.678).double()
+            m = float(fx.abs().max())
+            return bool((fx - fy).abs().max() <= rtol * max(m, 1e-30))
+        return bool(torch.equal(x, y))
+    if a[0] == 'seq':
+        return a[1] == b[1] and len(a[2]) == len(b[2]) and all(close(p, q, rtol) for p, q in zip(a[2], b[2]))
+    if a[0] == 'dict':
+        return len(a[1]) == len(b[1]) and all(p[0] == q[0] and close(p[1], q[1], rtol) for p, q in zip(a[1], b[1]))
+    if a[0] == 'v':
+        x, y = a[1], b[1]
+        if isinstance(x, float) and isinstance(y, float):
+            return (x != x and y != y) or abs(x - y) <= rtol * max(abs(x), 1e-30)
+        return x == y
+    return True
+
+
 def perturb_in_place(x, depth=0):
     """change the CONTENTS of every float array / tensor / list of floats reachable from x without replacing any object and, for tensors, without
     bumping the autograd version counter (`.data`): what a caller does who updates a buffer it owns.  returns the number of objects changed"""
@@ -145,6 +181,34 @@ def fresh_copy(x, depth=0):
     return x
 
 
+def relayout_copy(x, depth=0):
+    """new objects with the same values but another memory order: dense tensors / arrays of rank >= 2 get their last two axes exchanged in memory
+    (column-major instead of row-major); what `img.transpose(-1, -2)`, `rot90`, a Fortran-ordered NumPy array hand to a function"""
+    if depth > 4:
+        return x
+    if isinstance(x, torch.Tensor):
+        y = x.detach().clone()
+        if y.dim() >= 2 and y.shape[-1] > 1 and y.shape[-2] > 1:
+            y = y.transpose(-1, -2).contiguous().transpose(-1, -2)
+        return y.requires_grad_(x.requires_grad) if (y.is_floating_point() or y.is_complex()) else y
+    if isinstance(x, np.ndarray):
+        return np.asfortranarray(x.copy()) if x.ndim >= 2 else x.copy()
+    if isinstance(x, list):
+        return [relayout_copy(e, depth + 1) for e in x]
+    if isinstance(x, tuple):
+        return tuple(relayout_copy(e, depth + 1) for e in x)
+    if isinstance(x, dict):
+        return {k: relayout_copy(v, depth + 1) for k, v in x.items()}
+    return x
+
+
+# iterative optimisers amplify rounding differences (another memory order changes the FFT's summation order): no layout comparison for them
+ITERATIVE = {'odak.learn.wave.classical:stochastic_gradient_descent', 'odak.learn.wave.classical:gerchberg_saxton',
+             'odak.learn.wave.classical:point_wise', 'odak.learn.wave.optimizers:multi_color_hologram_optimizer.optimize',
+             'odak.learn.wave.optimizers:multi_color_hologram_optimizer.gradient_descent',
+             'odak.learn.raytracing.boundary:intersect_w_sphere', 'odak.wave.classical:gerchberg_saxton', 'odak.wave.classical:gerchberg_saxton_3d'}
+
+
 def _seed():
     import random as _r
     torch.manual_seed(4321)
@@ -158,6 +222,8 @@ class Probe:
         self.identity_calls = {}
         self.identity_dependent = {}     # qual -> description
         self.result_changed_later = {}   # qual -> description
+        self.layout_dependent = {}
+        self.result_owned_by_library = {}
         self.calls = {}
         self.mutated = {}        # (qual, param) -> example description
         self.default_mutated = {}
@@ -234,6 +300,28 @@ class Probe:
                                                              'else than for fresh objects holding the same values')
             if not same(keep_snap, snap(keep)):
                 self.result_changed_later.setdefault(qual, 'the value returned by an earlier call was changed by a later call')
+            # (c) memory order: the same values in column-major order
+            try:
+                _seed()
+                r_layout = snap(fn(*relayout_copy(args), **relayout_copy(kwargs)))
+                if qual not in ITERATIVE and not close(r_same, r_layout) and same(r_same, r_fresh):
+                    self.layout_dependent.setdefault(qual, 'the call returns something else for arguments holding the same values in another memory order '
+                                                           '(last two axes exchanged in memory)')
+            except Exception:
+                pass
+            # (d) what a call returns belongs to the caller: after the caller has scaled the returned object in place, the same call returns the same
+            # values as before (unless the result is a view of an argument, which then changed too)
+            arg_snap = (snap(args), snap(kwargs))
+            keep_saved = fresh_copy(keep)
+            try:
+                if qual not in ITERATIVE and perturb_in_place(keep) and same(arg_snap[0], snap(args)) and same(arg_snap[1], snap(kwargs)):
+                    _seed()
+                    r_again = snap(fn(*args, **kwargs))
+                    if not same(r_again, r_same) and same(r_same, r_fresh):
+                        self.result_owned_by_library.setdefault(qual, 'after the caller changed the object a call returned, the same call returns different '
+                                                                      'values: the library handed out (and keeps using) its own storage')
+            finally:
+                restore_in_place(keep, keep_saved)          # the caller receives what the call returned
         except Exception:
             pass
         finally:
